@@ -52,10 +52,22 @@ Fixpoint mk_named (ps : list N) (nvs : list (N * value)) (acc : ctx) : option ct
   | p :: r => match assoc p nvs with Some v => mk_named r nvs (ctx_set p v acc) | None => None end
   end.
 
-Definition quant_some (rs : list value) : value :=
-  if existsb poison rs then VPoison else VBool (existsb is_true rs).
+(* some / every: three-valued or / and over the results (a non-boolean result counts as null) *)
 Definition is_false (v : value) : bool := match v with VBool false => true | _ => false end.
+Definition is_boolean (v : value) : bool := match v with VBool _ => true | _ => false end.
+Definition quant_some (rs : list value) : value :=
+  if existsb poison rs then VPoison
+  else if existsb is_true rs then VBool true
+  else if forallb is_boolean rs then VBool false else VNull.
 Definition quant_every (rs : list value) : value :=
+  if existsb poison rs then VPoison
+  else if existsb is_false rs then VBool false
+  else if forallb is_boolean rs then VBool true else VNull.
+
+(* the folds as they were at the pinned commit: non-boolean results were ignored *)
+Definition quant_some_orig (rs : list value) : value :=
+  if existsb poison rs then VPoison else VBool (existsb is_true rs).
+Definition quant_every_orig (rs : list value) : value :=
   if existsb poison rs then VPoison else VBool (negb (existsb is_false rs)).
 
 Section Sem.
